@@ -194,6 +194,10 @@ pub fn value(s: &S) -> Value {
             "y" => Value::Bytes(None),
             _ => panic!("null tag"),
         },
+        // v:<hex of value term>:<hex of model encoding>: any Value variant, built from its constructor by
+        // valueterm::parse_value; the third field is for the model only (valueenc.rs)
+        #[cfg(feature = "fa")]
+        "v" => crate::valueterm::parse_value(&unhexs(t[1])),
         _ => panic!("value kind {}", t[0]),
     }
 }
@@ -261,6 +265,13 @@ pub fn expr(s: &S) -> SimpleExpr {
         "vals" => SimpleExpr::Values(l.iter().map(value).collect()),
         "cust" => SimpleExpr::Custom(hx(&l[0])),
         "custw" => SimpleExpr::CustomWithExpr(hx(&l[0]), l[1..].iter().map(expr).collect()),
+        // the same node through the public constructors (0..n arguments, the empty list included)
+        "custv" => Expr::cust_with_values(hx(&l[0]), l[1..].iter().map(value)),
+        "custe" => Expr::cust_with_exprs(hx(&l[0]), l[1..].iter().map(expr)),
+        "custe1" => {
+            assert!(l.len() == 2, "custe1 takes exactly one expression");
+            Expr::cust_with_expr(hx(&l[0]), expr(&l[1]))
+        }
         "kw" => SimpleExpr::Keyword(match l[0].atom() {
             "null" => Keyword::Null,
             "cdate" => Keyword::CurrentDate,
@@ -351,6 +362,11 @@ pub fn show_value(v: &Value) -> String {
         Value::String(x) => format!("s:{}", x.as_ref().map(|v| hexs(v)).unwrap_or("N".into())),
         Value::Char(x) => format!("c:{}", x.map(|v| hexs(&v.to_string())).unwrap_or("N".into())),
         Value::Bytes(x) => format!("y:{}", x.as_ref().map(|v| hex(v)).unwrap_or("N".into())),
+        // payload-crate kinds, vectors, arrays: the model encoding (formatter text computed independently of
+        // sea-query), spaces written as `_`
+        #[cfg(feature = "fa")]
+        other => crate::valueenc::show_bound(other),
+        #[cfg(not(feature = "fa"))]
         #[allow(unreachable_patterns)]
         other => format!("o:{}", hexs(&format!("{:?}", other))),
     }
